@@ -164,7 +164,7 @@ func (g *gen) e2eRunOnce(name, kind string, addr string, h *e2eHandler, n int, l
 	h.mu.Lock()
 	nCloseErrs := len(h.closeErrs)
 	h.mu.Unlock()
-	ctx, cancel := context.WithTimeout(context.Background(), 20*time.Second)
+	ctx, cancel := context.WithTimeout(context.Background(), 40*time.Second)
 	defer cancel()
 	var nc net.Conn
 	var err error
@@ -208,7 +208,7 @@ func (g *gen) e2eRunOnce(name, kind string, addr string, h *e2eHandler, n int, l
 	werr := make(chan error, 1)
 	go func() {
 		for _, req := range reqs {
-			nc.SetWriteDeadline(time.Now().Add(10 * time.Second))
+			nc.SetWriteDeadline(time.Now().Add(20 * time.Second))
 			if err := cn.WriteRequest(req); err != nil {
 				werr <- err
 				return
@@ -229,7 +229,7 @@ func (g *gen) e2eRunOnce(name, kind string, addr string, h *e2eHandler, n int, l
 	}
 	var got []string
 	for i := 0; i < n; i++ {
-		nc.SetReadDeadline(time.Now().Add(5 * time.Second))
+		nc.SetReadDeadline(time.Now().Add(20 * time.Second))
 		what, err := cn.Read()
 		if err != nil {
 			got = append(got, "error: "+classify(err))
